@@ -1,4 +1,5 @@
 import Operon.Model.Cascade
+import Operon.Model.CascadeObs
 /-! Helper lemmas for the cascade theorems (C19). -/
 namespace Operon.Cascade
 
@@ -316,6 +317,85 @@ theorem runFrom_amp (cfg : Cfg) :
       simp only [hr0, Option.toList_some, List.singleton_append, clampedProduct, ← hamp]
       exact ih'
 
+
+/-! ### the `on_stage_complete` observer -/
+
+theorem runFromO_transparent (cfg : Cfg) (obs : Option StageObs) :
+    ∀ (rest : List (Stage σ)) (i : Nat) (a : Acc σ), (runFromO cfg obs i rest a).1 = runFrom cfg i rest a := by
+  intro rest
+  induction rest with
+  | nil => intro i a; simp [runFromO, runFrom]
+  | cons s rest ih =>
+    intro i a
+    simp only [runFromO, runFrom]
+    split
+    · rfl
+    · simp [ih]
+
+/-- **The `on_stage_complete` observer changes nothing**, whether it returns or raises: the run with it is the run
+    without it. -/
+theorem runO_transparent (cfg : Cfg) (obs : Option StageObs) (stages : List (Stage σ)) (x : σ) :
+    (resultO cfg obs stages x).1 = result cfg stages x := by
+  have h := runFromO_transparent cfg obs stages 0 ⟨x, 1, none⟩
+  unfold resultO result run
+  simp only [h]
+
+theorem stageSeen_completed (cfg : Cfg) (obs : Option StageObs) (i : Nat) (s : Stage σ) (a : Acc σ) :
+    ∀ j ∈ stageSeen obs i s a, j = i ∧ ∃ r, (stageStep cfg i s a).res = some r ∧ r.idx = i ∧ r.status = .completed ∧
+      (.proc i a.cur) ∈ (stageStep cfg i s a).evs := by
+  intro j hj
+  unfold stageSeen at hj
+  cases obs with
+  | none => simp at hj
+  | some o =>
+    simp only at hj
+    split at hj
+    · rename_i hg
+      split at hj
+      · rename_i v hpo
+        simp at hj
+        refine ⟨hj, ?_⟩
+        unfold gateOpen at hg
+        unfold stageStep
+        split at hg
+        · rename_i hc
+          simp only [hc, process, hpo, procEvs]
+          exact ⟨_, rfl, rfl, rfl, by simp⟩
+        · rename_i cp hc
+          split at hg
+          · rename_i hcp
+            simp only [hc, hcp, process, hpo, procEvs]
+            exact ⟨_, rfl, rfl, rfl, by simp⟩
+          · simp at hg
+      · simp at hj
+    · simp at hj
+
+/-- every stage the observer is shown has a COMPLETED result and a processor event in the run -/
+theorem runFromO_seen (cfg : Cfg) (obs : Option StageObs) :
+    ∀ (rest : List (Stage σ)) (i : Nat) (a : Acc σ), ∀ j ∈ (runFromO cfg obs i rest a).2,
+      (∃ r ∈ (runFrom cfg i rest a).results, r.idx = j ∧ r.status = .completed) ∧
+      (∃ sig, (.proc j sig) ∈ (runFrom cfg i rest a).log) := by
+  intro rest
+  induction rest with
+  | nil => intro i a j hj; simp [runFromO] at hj
+  | cons s rest ih =>
+    intro i a j hj
+    simp only [runFromO] at hj
+    simp only [runFrom]
+    split at hj
+    · rename_i hstop
+      simp only [hstop, if_true]
+      obtain ⟨hji, r, hr, hidx, hst, hev⟩ := stageSeen_completed cfg obs i s a j hj
+      subst hji
+      exact ⟨⟨r, by simp [hr], hidx, hst⟩, ⟨_, hev⟩⟩
+    · rename_i hstop
+      simp only [hstop]
+      rcases List.mem_append.mp hj with h | h
+      · obtain ⟨hji, r, hr, hidx, hst, hev⟩ := stageSeen_completed cfg obs i s a j h
+        subst hji
+        exact ⟨⟨r, by simp [hr], hidx, hst⟩, ⟨a.cur, List.mem_append_left _ hev⟩⟩
+      · obtain ⟨⟨r, hr, hidx, hst⟩, ⟨sig, hsig⟩⟩ := ih (i + 1) _ j h
+        exact ⟨⟨r, by simp [hr], hidx, hst⟩, ⟨sig, List.mem_append_right _ hsig⟩⟩
 
 /-! ### the stub behaviour alphabet used by the evaluated table (Gen/CascadeTable) -/
 
